@@ -31,7 +31,7 @@ MANIFEST = {
 
 def leg_a(ctx):
     return [{"spec": "MC_Fit.tla", "cfg": "MC_Fit.cfg", "coverage": True, "workers": 4,
-             "what": "all histories of <= 3 calls over fit/best-fit, orders <= 1, zero points on/off"},
+             "what": "all histories of <= 3 steps over fit / best-fit (orders <= 1, zero points on/off) and in-place edits of the data by the caller"},
             {"spec": "MC_Fit.tla", "cfg": "MC_Fit_neg_leaky.cfg", "expect": "violates:DataUnchanged,BestOfGrid", "workers": 2,
              "what": "defect D5 (zero points appended to the caller's list) as a named deviation"}]
 
@@ -56,6 +56,13 @@ def histories(ctx, n):
 def run(ctx, pool):
     hs, rsim = histories(ctx, ctx.n(48, 600))
     hs = hs[:ctx.n(48, 600)]
+    # every third history is continued by two more steps of the same machine: the caller edits the data in place and then repeats one
+    # of the earlier calls word for word (a behaviour of Fit.tla like any other; the simulator rarely happens to produce it)
+    for j, h in enumerate(hs):
+        calls = [c for c in h if c["call"] != "edit"]
+        if j % 3 == 0 and calls:
+            rep = calls[(ctx.seed + j) % len(calls)]
+            hs[j] = list(h) + [{"call": "edit", "n": 0, "m": 0, "iz": False}, dict(rep)]
     per = max(1, len(hs) // 32)
     jobs = [(ctx.seed * 2741 + j, hs[j:j + per]) for j in range(0, len(hs), per)]
     tw = TraceWriter()
